@@ -442,6 +442,29 @@ def r6_iteration_local_scope(chk: Check) -> None:
         chk.undecided("C08.R6", "<discovery>", f"sites={n_sites}", "fewer per-iteration scope variables than confirmed by hand (3)")
 
 
+def r7_scope_not_held_across_yield(chk: Check) -> None:
+    chk.rule("C08.R7", "SCOPE-NOT-SHARED(resolution scope x generator suspension): the schema's resolver has ONE scope stack; a generator that `yield`s inside `with in_scope(resolver, scope)` leaves its scope on that stack while the consumer runs - with several workers the next operation's scope replaces it while the previous operation is still being tested, so operation-relative `$ref`s of a multi-file schema resolve against the wrong document", floor=1)
+    P = chk.project
+    n = 0
+    for fn in P.all_functions():
+        if isinstance(fn.node, ast.Lambda) or not fn.module.relpath.startswith("specs/openapi/"):
+            continue
+        for w in (x for x in walk_body(fn.node) if isinstance(x, ast.With)):
+            if not any(isinstance(i.context_expr, ast.Call) and last_attr(i.context_expr) == "in_scope" for i in w.items):
+                continue
+            n += 1
+            ys = [y for s_ in w.body for y in walk_local(s_) if isinstance(y, (ast.Yield, ast.YieldFrom))]
+            construct = f"{fn.name}: no yield while in_scope(...) is active"
+            if ys:
+                chk.violation("C08.R7", fn, construct,
+                              f"{len(ys)} yield(s) inside the block: the generator is suspended with its scope still pushed on the shared resolver; worker-side resolution (payload schema, examples, links, security) implicitly relies on that leftover scope, which is only right with a single worker - with `--workers 2` an operation of a multi-file schema that works with one worker fails with RefResolutionError and receives no traffic",
+                              fn.loc(ys[0]))
+            else:
+                chk.ok("C08.R7", fn, construct, "", fn.loc(w))
+    if n < 1:
+        chk.undecided("C08.R7", "<discovery>", "with in_scope(...) blocks", "none found")
+
+
 def rfwd_forwarding(chk: Check) -> None:
     from . import shared
 
@@ -449,4 +472,4 @@ def rfwd_forwarding(chk: Check) -> None:
 
 
 def rules(tier: str) -> list:  # type: ignore[type-arg]
-    return [r1_scope_pairs, r2_merge_order, r3_constructors, r4_no_drop, r5_yaml, r6_iteration_local_scope, rfwd_forwarding]
+    return [r1_scope_pairs, r2_merge_order, r3_constructors, r4_no_drop, r5_yaml, r6_iteration_local_scope, r7_scope_not_held_across_yield, rfwd_forwarding]
